@@ -1,0 +1,55 @@
+//go:build verif
+// +build verif
+
+// Contracts for package utils, read by /verif's govc (contract-based deductive verification).
+// This file contains comments only; it is compiled only under the build tag "verif" and adds no code.
+
+package utils
+
+//@ import "os"
+//@ import "bytes"
+//@ import "encoding/json"
+
+// ---- assumed file-system model (C18): disk(p) is the content class of the file at path p -------------------------
+//   0 = the complete previous content, 1 = the complete new content, 2 = anything else (empty, partial, absent)
+// A crash may happen between any two file-system calls; a write may persist any prefix; rename is atomic.
+//@ extern func os.OpenFile(name string, flag int, perm os.FileMode) (f *os.File, err error)
+//@   modifies disk(name)
+//@   fresh f
+//@   ensures err == nil ==> f != nil && ghostInt(f, "pathkey") == pathKey(name)
+//@   ensures err == nil && flag&os.O_TRUNC != 0 ==> disk(name) == 2
+//@   ensures err != nil || flag&os.O_TRUNC == 0 ==> disk(name) == old(disk(name))
+//@ extern func (f *os.File) Write(b []byte) (n int, err error)
+//@   modifies diskOfFile(f)
+//@   ensures err == nil ==> diskOfFile(f) == 1
+//@   ensures err != nil ==> diskOfFile(f) == 2
+//@ extern func (f *os.File) Sync() (err error)
+//@   modifies
+//@ extern func (f *os.File) Close() (err error)
+//@   modifies
+//@ extern func os.Remove(name string) (err error)
+//@   modifies disk(name)
+//@   ensures disk(name) == 2 || disk(name) == old(disk(name))
+//@ extern func os.Rename(oldpath string, newpath string) (err error)
+//@   modifies disk(oldpath), disk(newpath)
+//@   ensures err == nil ==> disk(newpath) == old(disk(oldpath))
+//@   ensures err != nil ==> disk(newpath) == old(disk(newpath)) && disk(oldpath) == old(disk(oldpath))
+//@ extern func json.Marshal(v interface{}) (b []byte, err error)
+//@   modifies
+//@ extern func json.Indent(dst *bytes.Buffer, src []byte, prefix string, indent string) (err error)
+//@   modifies out(dst), *dst
+//@   ensures true
+
+// crash consistency as an in-between invariant: before EVERY file-system call (= at every point where the process
+// can die between two of them) and at exit, the file at path holds the complete old or the complete new content
+//@ func EncodeJSONFile(path string, obj interface{}) (err error)
+//@   requires disk(path) == 0 && len(path) < 1<<30
+//@   modifies all()
+//@   assert[call:OpenFile] disk(path) == 0 || disk(path) == 1
+//@   assert[call:Write] disk(path) == 0 || disk(path) == 1
+//@   assert[call:Sync] disk(path) == 0 || disk(path) == 1
+//@   assert[call:Close] disk(path) == 0 || disk(path) == 1
+//@   assert[call:Remove] disk(path) == 0 || disk(path) == 1
+//@   assert[call:Rename] disk(path) == 0 || disk(path) == 1
+//@   ensures disk(path) == 0 || disk(path) == 1
+//@   ensures err == nil ==> disk(path) == 1
